@@ -16,6 +16,11 @@ CHECKS = {
    note=NOTE_COMMON + 'The inverse-link step mu = g^-1(lp) is C07; rows with |lp| > 30 are not compared through link(mu) (saturation). General k-way tensor grid formula proved for k = 2 (digits formula is definitional in the model for all k).',
    technique='Lean 4 theorems (list induction, sum splitting) + exact-rational correspondence on fitted models',
    ref='7/C02'),
+ 'C08': dict(
+   text='Theorems from the solve contracts (Matrix algebra over a field): edof = tr(U1 U1^T) = tr(WB Bmat) = trace of the influence matrix of the final weighted penalised regression for any solution of N X = WB^T; 0 <= edof, edof > 0 when WB != 0, edof <= m, edof <= k (rows) under row-orthonormality of U; cov = scale Bmat Bmat^T = scale N^-1 (WB^T WB) N^-1 (inverse-free and with the proved inverse V D^-2 V^T), symmetric with non-negative diagonal, se^2 = diag; scale = supplied or Pearson / (n - edof); the formula table: AIC (+2 iff the scale is estimated), AICc - AIC, GCV, UBRE (gamma = 7/5, add_scale), explained deviance <= 1 and scale-free, McFadden and adjusted, deviance residuals (sign, square), accuracy in [0,1], centred Wald statistic and p-value forms. Tied to /repo by recomputing every entry of statistics_ and the outputs of deviance_residuals / score / accuracy / loglikelihood in the Float driver from exported (B, A, y, mu, w, coef_, mask) of real fits (known / unknown scale, weights, n < m), validating the contracts on loop locals, and a NumPy/SciPy oracle (dense influence trace, sandwich, closed-form log-densities, own pseudo-inverse for Wald).',
+   note=NOTE_COMMON + 'LAPACK / Cholesky factors are contracts; SciPy pinv, chi2.cdf, f.cdf and lgamma are trusted; IEEE rounding not modelled (solve-dependent entries judged with the conditioning-aware threshold of C01); fits with an exactly zero estimated scale are not judged on scaled deviances (0/0).',
+   technique='Lean 4 theorems (Matrix trace / sandwich algebra, ordered-field formula identities) + Float-model correspondence at real fits',
+   ref='7/C08'),
  'C09': dict(
    text='Theorems over R with the quantile functions as parameters under the contract (strictly increasing, antisymmetric): width w = quantiles [(1-w)/2,(1+w)/2]; levels outside (0,1) (incl. NaN, through width too) rejected exactly; bound formula g^-1(lp + z_q sqrt(row cov row [+ scale])) with normal / t(n - edof) quantiles; ordered in q, bracket the prediction, nested in the width, prediction intervals contain confidence intervals; partial-dependence intervals use only the term block. Tied to /repo by recomputing every bound in the Float driver from exported cov, edof, scale, rows and SciPy quantiles for 13 model variants incl. extrapolation.',
    note=NOTE_COMMON + 'SciPy norm.ppf / t.ppf are trusted parameters (contract validated on a grid each run: monotone exactly, antisymmetric to 1e-7).',
@@ -87,7 +92,7 @@ CHECKS = {
    technique='Lean 4 theorems (list induction, Nat div/mod index algebra, C03 basis lemmas) + exact-rational differential correspondence on random term programs',
    ref='7/C16'),
 }
-PENDING = ['C08','C12','C13','C14']
+PENDING = ['C12','C13','C14']
 
 def main():
     checks = []
